@@ -61,6 +61,30 @@ fn main() {
                 out.flush().unwrap();
             }
         }
+        // store() onto sinks that cannot take the data
+        Some("filesinks") => {
+            use epserde::prelude::Serialize;
+            let mut res = vec![];
+            let small: Vec<u64> = vec![1, 2, 3];
+            let large: Vec<u64> = (0..100_000).collect();
+            let dir = std::env::temp_dir();
+            let cases: Vec<(&str, &Vec<u64>, std::path::PathBuf)> = vec![
+                ("devfull-small", &small, "/dev/full".into()),
+                ("devfull-large", &large, "/dev/full".into()),
+                ("directory", &small, dir.clone()),
+                ("missing-dir", &small, "/nonexistent-dir-verif/x.bin".into()),
+            ];
+            for (name, v, path) in cases {
+                let r = std::panic::catch_unwind(|| v.store(&path));
+                let o = match r {
+                    Ok(Ok(())) => json!({"case": name, "st": "ok"}),
+                    Ok(Err(e)) => { let mut o = ser_err(&e); o["case"] = json!(name); o }
+                    Err(p) => json!({"case": name, "st": "panic", "msg": panic_msg(p)}),
+                };
+                res.push(o);
+            }
+            writeln!(out, "{}", Value::Array(res)).unwrap();
+        }
         Some("keys") => {
             let mut ks: Vec<&str> = table().keys().cloned().collect();
             ks.sort();
